@@ -920,6 +920,7 @@ func c05KindsSig(cs []c05Call) string {
 }
 
 const c05DroppedSig = "exclusive-singleton-infinity-dropped"
+const c05InexactPrefix = "inexact-number-equals:"
 
 // c05Dropped: an exclusive bound at the singleton infinity of its own side — the builder drops it.
 func c05Dropped(c c05Call) bool {
@@ -946,6 +947,13 @@ type c05Judge struct {
 }
 
 func (j *c05Judge) fail(site, sig, what string, recv c05Recv, cs []c05Call, outcome string) {
+	if strings.HasPrefix(sig, c05InexactPrefix) && site != "includes" {
+		// one root cause, one (site, sig): the builder compares bounds with Value.Equals, which compares
+		// shortest decimal texts.  (ValueRange.Includes has the same cause at another call site and keeps
+		// its own entry.)
+		what = "[observed at " + site + " / " + strings.TrimPrefix(sig, c05InexactPrefix) + "] " + what
+		site, sig = "builder-number-compare", "inexact-number-equals"
+	}
 	if sig == c05DroppedSig && site != "exact" {
 		// one root cause, one (site, sig): the builder drops an exclusive bound at the singleton
 		// infinity of its own side.  Where the consequence was observed goes into the description.
@@ -964,6 +972,11 @@ func (j *c05Judge) run(recv c05Recv, calls []c05Call) {
 	impl := c05Impl(res, panicAt)
 	rw := encVal(recv.v)
 	ctx.Add("rfn.run", impl, rw, c05Wires(calls))
+	if tk == "num" {
+		// the same case under the exact-where-it-answers equality oracle (the instance the theorems
+		// are tied through); the driver answers "unmodelled" where the decimal text could matter
+		ctx.Add("rfn.runx", impl, rw, c05Wires(calls))
+	}
 	ctx.Tag("recv:" + recv.tag + ":" + tk)
 	if panicAt >= 0 {
 		ctx.Tag("outcome:panic")
@@ -1052,7 +1065,7 @@ func (j *c05Judge) run(recv c05Recv, calls []c05Call) {
 		inexact := c05InexactEquals(statedNums)
 		sigX := ""
 		if inexact {
-			sigX = "inexact-number-equals:"
+			sigX = c05InexactPrefix
 		}
 		if okPrev {
 			// range_reports_exact / faithful: the reported range is exactly what the stated constraints imply
@@ -1110,15 +1123,20 @@ func (j *c05Judge) run(recv c05Recv, calls []c05Call) {
 			}
 			// collapse to known only if a single value remains
 			if u, _ := wPrev.Unmark(); u.IsKnown() && !spec.singleton(tk) {
-				j.fail("newvalue-known-exact", "collapse-not-singleton:"+tk, "NewValue returned a known value although the stated constraints admit more than one", recv, calls[:i], encVal(wPrev))
+				j.fail("newvalue-known-exact", sigX+"collapse-not-singleton:"+tk, "NewValue returned a known value although the stated constraints admit more than one", recv, calls[:i], encVal(wPrev))
 			}
 		}
 		if i == nOK {
 			break
 		}
-		// step i: calls[i] succeeded
+		// step i: calls[i] succeeded; the numbers compared now include its arguments
 		c := calls[i]
 		spec.add(c)
+		inexact = c05InexactEquals(c05CallNums(append(append([]c05Call{}, stated...), c)))
+		sigX = ""
+		if inexact {
+			sigX = c05InexactPrefix
+		}
 		emptyAfter, shape := spec.nonNullEmpty(tk)
 		nullGone := (c.k == "nn" && spec.isNull) || (c.k == "nl" && spec.notNull)
 		if nullGone {
